@@ -397,6 +397,38 @@ def gen_ops(g, w, n, weights):
         elif k == "setref" and w["refs"]:
             rr = r.choice(w["refs"])
             ops.append(["setref", rr["rid"], g.val()])
+        elif k == "scn_recalc":
+            # directed scenario (seeded/C06_r2): with the recalculation option on, an assignment whose immediate
+            # recomputation of a dependent FAILS; the assigned value must still be an input afterwards (survive
+            # clear() and reference changes, be returned as assigned)
+            cands = [x for x in cur.values() if cached_state[x["cid"]]]
+            if len(cands) < 2:
+                continue
+            c = max(cands, key=lambda x: x["cid"])
+            ds = [x for x in cands if x["cid"] < c["cid"] and not x.get("derived")]
+            if not ds:
+                continue
+            d = r.choice(ds)
+            kc, kd = g.key(c), g.key(d)
+            nd = dict(d)
+            nd["body"] = [["assign", ["bin", "fdiv", ["const", 12], ["call", c["cid"], [["const", v] for v in kc]]]]]
+            cur[d["cid"]] = nd
+            ops.append(["setf", d["cid"], nd, "direct"])
+            # only d(kd) may depend on c(kc) when it is overwritten: the order in which modelx recomputes several
+            # dependents is that of a set, and a failure stops the loop (which ones were recomputed is not determined)
+            for x in cur.values():
+                ops.append(["clear", x["cid"]])
+            ops.append(["recalc", True])
+            ops.append(["setv", c["cid"], kc, r.choice([1, 2, 3])])
+            ops.append(["eval", d["cid"], kd, r.choice(SPELLINGS)])
+            ops.append(["setv", c["cid"], kc, 0, "single"])       # the (only) dependent 12 // 0 fails while being recomputed
+            ops.append(["clear", c["cid"]])
+            if w["refs"]:
+                rr = r.choice(w["refs"])
+                ops.append(["setref", rr["rid"], g.val()])
+            ops.append(["eval", c["cid"], kc, r.choice(SPELLINGS)])
+            ops.append(["recalc", False])
+            ops.append(["eval", d["cid"], kd, r.choice(SPELLINGS)])
         elif k == "scn_ref" and w["refs"]:
             # directed scenario (found missing by finding D40): evaluate an element, change a reference (its
             # dependents lose their values), assign a value to the same element, change another reference,
@@ -410,12 +442,28 @@ def gen_ops(g, w, n, weights):
                 # ... starting from an element that was an input before its cells was redefined (a stale input
                 # mark must not protect the value computed afterwards: seeded/C02_r2)
                 ops.append(["setv", c["cid"], key, g.val()])
-                emit_setf(c)
+                vis = [x for x in w["refs"] if x["space"] is None or x["space"] == c["space"]]
+                first = None
+                if vis and not c.get("derived") and r.random() < 0.7:
+                    # the new formula reads a visible reference by name, and that reference changes below
+                    first = r.choice(vis)
+                    nc = dict(c)
+                    nc["body"] = [["assign", ["bin", "add", ["refn", first["rid"]],
+                                              (["par", 0] if c["nparams"] else ["const", g.val()])]]]
+                    cur[c["cid"]] = nc
+                    ops.append(["setf", c["cid"], nc, "direct"])
+                else:
+                    emit_setf(c)
                 c = cur[c["cid"]]
                 if len(key) != c["nparams"]:
                     key = g.key(c)
+            else:
+                first = None
             ops.append(["eval", c["cid"], key, r.choice(SPELLINGS)])
-            for rr in r.sample(w["refs"], min(len(w["refs"]), r.randint(1, 3))):
+            chosen = r.sample(w["refs"], min(len(w["refs"]), r.randint(1, 3)))
+            if first is not None and first not in chosen:
+                chosen.insert(0, first)
+            for rr in chosen:
                 ops.append(["setref", rr["rid"], g.val()])
                 if r.random() < 0.6:
                     ops.append(["setv", c["cid"], key, g.val()])
